@@ -81,6 +81,7 @@ def trig_terms(t):
                    z3.Implies(z3.And(t < 0, t > -PI), s < 0),
                    z3.Implies(t == 0, z3.And(c == 1, s == 0))]
         r = (SV(t=c), SV(t=s))
+        E.trig_atoms.append((t, c, s))
     E.memo[key] = (r[0], r[1], t)
     E.keep.append(t)
     return r
